@@ -62,7 +62,7 @@ Theorem rename_ghost_range_refuted :
     = Some (ENamedFun None [115;117;109] [ERange (Some t_renamed) (Some 1) pA1 pA2], []).
 Proof.
   split; [vm_compute; reflexivity|]. split; [|vm_compute; reflexivity].
-  vm_compute. intro H. inversion H as [| | | | | | | | |id name a a' HF| | | | | | |e He]; subst.
+  vm_compute. intro H. inversion H as [| | | | | | | | |id name a a' HF| | | | | | |e He]; subst. Show.
   - inversion HF as [|x y l l' Hxy Hl]; subst. inversion Hxy; subst; discriminate.
   - discriminate.
 Qed.
